@@ -144,8 +144,341 @@ func genSubs() {
 	if def == "" {
 		die("Meta.CheckPermission: no default case")
 	}
-	fmt.Fprintf(&sb, "  %s\n\nend PB.Gen.Subs\n", def)
+	fmt.Fprintf(&sb, "  %s\n\n", def)
+
+	genNotifyLoop(&sb)
+	genHookLocks(&sb)
+
+	sb.WriteString("end PB.Gen.Subs\n")
 	write("Subs.lean", sb.String())
+}
+
+// ---- (c) the loop over c.subscriptions in Controller.notifySubscribers --------------------------------------
+//
+// For each of the three paths one iteration can take — the record is not for the subscriber (skip), it is and the
+// non-blocking send succeeds (sent), it is and the feed is full (full) — the extractor follows the statements of
+// the loop body and reports whether the path goes on to the next subscription or leaves the loop (`return`, `break`
+// of the loop). It follows: `if` on the permission-and-match condition (or its negation), `select` with exactly the
+// send case and a default, `continue`, `return`, unlabelled `break`, calls of verifEvent. Anything else: fail closed.
+
+const (
+	flowFall = iota // fell off the end of the statement list
+	flowNext        // goes on with the next subscription
+	flowExit        // leaves the loop
+	flowBreak       // unlabelled break (meaning depends on what encloses it)
+)
+
+type notifyPath struct {
+	vis, room bool
+	sends     int // how often the path went through the select
+}
+
+const notifyCond = "r.Meta().CheckPermission(sub.local, sub.internal) && sub.q.Matches(r)"
+
+var notifyNegConds = map[string]bool{
+	"!r.Meta().CheckPermission(sub.local, sub.internal) || !sub.q.Matches(r)": true,
+	"!(" + notifyCond + ")": true,
+}
+
+func isVerifEventCall(e ast.Expr) bool {
+	call, ok := e.(*ast.CallExpr)
+	if !ok {
+		return false
+	}
+	id, ok := call.Fun.(*ast.Ident)
+	return ok && (id.Name == "verifEvent" || id.Name == "verifYield")
+}
+
+func (p *notifyPath) flow(fset *token.FileSet, stmts []ast.Stmt) int {
+	for _, st := range stmts {
+		switch x := st.(type) {
+		case *ast.ExprStmt:
+			if !isVerifEventCall(x.X) {
+				die("notifySubscribers: unexpected statement in the subscriber loop: %s", exprString(fset, x.X))
+			}
+		case *ast.EmptyStmt:
+		case *ast.BranchStmt:
+			if x.Label != nil {
+				die("notifySubscribers: labelled %s in the subscriber loop", x.Tok)
+			}
+			switch x.Tok {
+			case token.CONTINUE:
+				return flowNext
+			case token.BREAK:
+				return flowBreak
+			}
+			die("notifySubscribers: unexpected %s in the subscriber loop", x.Tok)
+		case *ast.ReturnStmt:
+			return flowExit
+		case *ast.BlockStmt:
+			if f := p.flow(fset, x.List); f != flowFall {
+				return f
+			}
+		case *ast.IfStmt:
+			if x.Init != nil {
+				die("notifySubscribers: if with init statement in the subscriber loop")
+			}
+			c := exprString(fset, x.Cond)
+			var val bool
+			switch {
+			case c == notifyCond:
+				val = p.vis
+			case notifyNegConds[c]:
+				val = !p.vis
+			default:
+				die("notifySubscribers: condition in the subscriber loop is not the permission-and-match test: %s", c)
+			}
+			f := flowFall
+			if val {
+				f = p.flow(fset, x.Body.List)
+			} else if x.Else != nil {
+				f = p.flow(fset, []ast.Stmt{x.Else})
+			}
+			if f != flowFall {
+				return f
+			}
+		case *ast.SelectStmt:
+			if !p.vis {
+				die("notifySubscribers: a send is attempted for a record that is not for the subscriber")
+			}
+			var send, dflt *ast.CommClause
+			for _, cl := range x.Body.List {
+				cc := cl.(*ast.CommClause)
+				if cc.Comm == nil {
+					dflt = cc
+					continue
+				}
+				ss, ok := cc.Comm.(*ast.SendStmt)
+				if !ok || exprString(fset, ss.Chan) != "sub.Feed" || exprString(fset, ss.Value) != "r" || send != nil {
+					die("notifySubscribers: select has a case other than `sub.Feed <- r`")
+				}
+				send = cc
+			}
+			if send == nil || dflt == nil || len(x.Body.List) != 2 {
+				die("notifySubscribers: select is not {case sub.Feed <- r; default}")
+			}
+			p.sends++
+			body := dflt.Body
+			if p.room {
+				body = send.Body
+			}
+			switch f := p.flow(fset, body); f {
+			case flowFall, flowBreak: // break inside select ends the select
+			default:
+				return f
+			}
+		default:
+			die("notifySubscribers: unexpected statement %T in the subscriber loop", st)
+		}
+	}
+	return flowFall
+}
+
+func genNotifyLoop(sb *strings.Builder) {
+	fset, f := parseFile("database/controller.go")
+	fd := findFunc(f, "notifySubscribers", "Controller")
+	if fd == nil {
+		die("Controller.notifySubscribers not found")
+	}
+	var loops []*ast.RangeStmt
+	ast.Inspect(fd.Body, func(n ast.Node) bool {
+		switch x := n.(type) {
+		case *ast.RangeStmt:
+			loops = append(loops, x)
+		case *ast.ForStmt, *ast.GoStmt, *ast.FuncLit, *ast.LabeledStmt:
+			die("notifySubscribers: unexpected %T", x)
+		}
+		return true
+	})
+	if len(loops) != 1 {
+		die("notifySubscribers: expected exactly one range loop, found %d", len(loops))
+	}
+	loop := loops[0]
+	if exprString(fset, loop.X) != "c.subscriptions" {
+		die("notifySubscribers: the loop does not range over c.subscriptions")
+	}
+	if v, ok := loop.Value.(*ast.Ident); !ok || v.Name != "sub" {
+		die("notifySubscribers: loop variable is not `sub`")
+	}
+	// the loop is a top-level statement of the function and nothing but deferred calls / events surrounds it
+	top := false
+	for _, st := range fd.Body.List {
+		if st == ast.Stmt(loop) {
+			top = true
+		}
+	}
+	if !top {
+		die("notifySubscribers: the subscriber loop is not a top-level statement")
+	}
+	exits := func(name string, vis, room bool) bool {
+		p := &notifyPath{vis: vis, room: room}
+		fl := p.flow(fset, loop.Body.List)
+		want := 0
+		if vis {
+			want = 1
+		}
+		if p.sends != want {
+			die("notifySubscribers: path %q goes through the select %d times (expected %d)", name, p.sends, want)
+		}
+		return fl == flowExit || fl == flowBreak // a break directly in the loop body leaves the loop
+	}
+	sb.WriteString("/-- The loop over `c.subscriptions` in `Controller.notifySubscribers` (database/controller.go), regenerated:\n")
+	sb.WriteString("    does an iteration that took the named path leave the loop (`return` / `break`) instead of going on with the\n")
+	sb.WriteString("    next subscription? skip = the record is not for this subscriber; sent = the non-blocking send succeeded;\n")
+	sb.WriteString("    full = the `default:` branch (feed buffer full). -/\n")
+	fmt.Fprintf(sb, "def notifySkipExits : Bool := %v\n", exits("skip", false, false))
+	fmt.Fprintf(sb, "def notifySentExits : Bool := %v\n", exits("sent", true, true))
+	fmt.Fprintf(sb, "def notifyFullExits : Bool := %v\n\n", exits("full", true, false))
+}
+
+// ---- (d) hooksLock around the hook calls ------------------------------------------------------------------
+//
+// runPreGetHooks / runPostGetHooks / runPrePutHooks: `c.hooksLock.RLock()` as a top-level statement, then either
+// `defer c.hooksLock.RUnlock()` (the lock is held until the function returns, i.e. during every hook call), or one
+// plain `c.hooksLock.RUnlock()` at top level that comes before the (only) call of the hook method (the calls are made
+// without the lock). RegisteredHook.Cancel: `c.hooksLock.Lock()` + `defer c.hooksLock.Unlock()` (exclusive) or
+// `RLock`/`RUnlock` (shared). Anything else: fail closed.
+
+func hookRunnerUnderLock(fset *token.FileSet, f *ast.File, fn, method string) bool {
+	fd := findFunc(f, fn, "Controller")
+	if fd == nil {
+		die("Controller.%s not found", fn)
+	}
+	lockAt, deferAt, plainAt := -1, -1, -1
+	for i, st := range fd.Body.List {
+		switch x := st.(type) {
+		case *ast.ExprStmt:
+			switch exprString(fset, x.X) {
+			case "c.hooksLock.RLock()":
+				if lockAt >= 0 {
+					die("%s: hooksLock.RLock() twice", fn)
+				}
+				lockAt = i
+			case "c.hooksLock.RUnlock()":
+				if plainAt >= 0 {
+					die("%s: hooksLock.RUnlock() twice", fn)
+				}
+				plainAt = i
+			}
+		case *ast.DeferStmt:
+			if exprString(fset, x.Call) == "c.hooksLock.RUnlock()" {
+				if deferAt >= 0 {
+					die("%s: deferred RUnlock twice", fn)
+				}
+				deferAt = i
+			}
+		}
+	}
+	nLock, nUnlock, nCalls := 0, 0, 0
+	var callPos token.Pos
+	ast.Inspect(fd.Body, func(n ast.Node) bool {
+		switch x := n.(type) {
+		case *ast.GoStmt, *ast.FuncLit:
+			die("%s: unexpected %T", fn, x)
+		case *ast.CallExpr:
+			if sel, ok := x.Fun.(*ast.SelectorExpr); ok {
+				switch {
+				case sel.Sel.Name == method:
+					nCalls++
+					callPos = x.Pos()
+				case exprString(fset, sel.X) == "c.hooksLock":
+					switch sel.Sel.Name {
+					case "RLock":
+						nLock++
+					case "RUnlock":
+						nUnlock++
+					default:
+						die("%s: unexpected c.hooksLock.%s()", fn, sel.Sel.Name)
+					}
+				}
+			}
+		}
+		return true
+	})
+	if lockAt < 0 || nLock != 1 || nUnlock != 1 || nCalls != 1 {
+		die("%s: expected one top-level RLock, one RUnlock and one call of %s (found %d/%d/%d)", fn, method, nLock, nUnlock, nCalls)
+	}
+	switch {
+	case deferAt > lockAt && plainAt < 0:
+		if callPos < fd.Body.List[deferAt].End() {
+			die("%s: the hook is called before the lock is taken", fn)
+		}
+		return true
+	case plainAt > lockAt && deferAt < 0:
+		if callPos > fd.Body.List[plainAt].End() {
+			return false // unlocked before the hooks are called
+		}
+		die("%s: plain RUnlock after the hook call: unknown shape (early returns would leak the lock)", fn)
+	}
+	die("%s: unknown locking shape", fn)
+	return false
+}
+
+func genHookLocks(sb *strings.Builder) {
+	fset, f := parseFile("database/controller.go")
+	sb.WriteString("/-- Is `hooksLock` (read) held while the hooks are called? Regenerated from `runPreGetHooks` / `runPostGetHooks` /\n")
+	sb.WriteString("    `runPrePutHooks` (database/controller.go): `RLock(); defer RUnlock()` = true, `RUnlock()` before the call = false. -/\n")
+	fmt.Fprintf(sb, "def preGetCallsUnderLock : Bool := %v\n", hookRunnerUnderLock(fset, f, "runPreGetHooks", "PreGet"))
+	fmt.Fprintf(sb, "def postGetCallsUnderLock : Bool := %v\n", hookRunnerUnderLock(fset, f, "runPostGetHooks", "PostGet"))
+	fmt.Fprintf(sb, "def prePutCallsUnderLock : Bool := %v\n\n", hookRunnerUnderLock(fset, f, "runPrePutHooks", "PrePut"))
+
+	fset2, f2 := parseFile("database/hook.go")
+	fd := findFunc(f2, "Cancel", "RegisteredHook")
+	if fd == nil {
+		die("RegisteredHook.Cancel not found")
+	}
+	var seq []string
+	for _, st := range fd.Body.List {
+		switch x := st.(type) {
+		case *ast.ExprStmt:
+			if s := exprString(fset2, x.X); strings.HasPrefix(s, "c.hooksLock.") {
+				seq = append(seq, s)
+			}
+		case *ast.DeferStmt:
+			if s := exprString(fset2, x.Call); strings.HasPrefix(s, "c.hooksLock.") {
+				seq = append(seq, "defer "+s)
+			}
+		}
+	}
+	n := 0
+	ast.Inspect(fd.Body, func(nd ast.Node) bool {
+		switch x := nd.(type) {
+		case *ast.GoStmt, *ast.FuncLit:
+			die("RegisteredHook.Cancel: unexpected %T", x)
+		case *ast.SelectorExpr:
+			if exprString(fset2, x.X) == "c.hooksLock" {
+				n++
+			}
+		}
+		return true
+	})
+	excl := false
+	switch strings.Join(seq, "; ") {
+	case "c.hooksLock.Lock(); defer c.hooksLock.Unlock()":
+		excl = true
+	case "c.hooksLock.RLock(); defer c.hooksLock.RUnlock()":
+	default:
+		die("RegisteredHook.Cancel: unknown locking shape: %s", strings.Join(seq, "; "))
+	}
+	if n != 2 {
+		die("RegisteredHook.Cancel: hooksLock used %d times", n)
+	}
+	// the removal must come after the lock statement
+	lockEnd := token.NoPos
+	for _, st := range fd.Body.List {
+		if d, ok := st.(*ast.DeferStmt); ok && strings.HasPrefix(exprString(fset2, d.Call), "c.hooksLock.") {
+			lockEnd = d.End()
+		}
+	}
+	ast.Inspect(fd.Body, func(nd ast.Node) bool {
+		if as, ok := nd.(*ast.AssignStmt); ok && len(as.Lhs) == 1 && exprString(fset2, as.Lhs[0]) == "c.hooks" && as.Pos() < lockEnd {
+			die("RegisteredHook.Cancel: c.hooks is changed before the lock is taken")
+		}
+		return true
+	})
+	sb.WriteString("/-- Does `RegisteredHook.Cancel` (database/hook.go) hold `hooksLock` exclusively (`Lock(); defer Unlock()`) while it\n")
+	sb.WriteString("    removes the hook? -/\n")
+	fmt.Fprintf(sb, "def hookCancelWriteLocked : Bool := %v\n\n", excl)
 }
 
 func exprOf(e ast.Expr) string {
